@@ -198,7 +198,7 @@ def on_protocol_path(nfr, ns, nf):
         if res is None: return dict(status=status, bad=["path ended: " + status], nq=0, mask=None)
         m = EX.model([]); F = res["frames"]; thr = res["thr"]; om = res["om"]
         mask = [[bool(z3.is_true(m.eval(F[t][k] > thr, model_completion=True))) for k in range(ns * nf)] for t in range(nfr)]
-        comps = voxel_components(mask, nfr, ns, nf); emitted = res["emitted"]; bad = []; nq = 0
+        comps = voxel_components(mask, nfr, ns, nf); emitted = res["emitted"]; bad = []; nq = 0; unk = []
         base = list(hyp) + list(pc)
         if len(comps) != len(emitted): bad.append("%d peaks written, %d components" % (len(emitted), len(comps)))
         used = set()
@@ -214,18 +214,29 @@ def on_protocol_path(nfr, ns, nf):
                 g = [R(row[E[k]]) == v for k, v in want.items()]
                 # centroids as written after compute_moments
                 tot = want["s_I"]
-                g += [R(row[E["f_raw"]]) * tot == want["s_fI"], R(row[E["s_raw"]]) * tot == want["s_sI"], R(row[E["o_raw"]]) * tot == want["s_oI"]]
+                for fld, num in (("f_raw", "s_fI"), ("s_raw", "s_sI"), ("o_raw", "s_oI")):
+                    q = R(row[E[fld]])
+                    if z3.is_app(q) and q.decl().kind() == z3.Z3_OP_DIV:      # written as the quotient of two sums: compare numerator and denominator (linear) instead of q * tot
+                        g += [q.arg(0) == want[num], q.arg(1) == tot, tot > 0]
+                    else: g.append(q * tot == want[num])
                 mx = R(row[E["mx_I"]])
                 g += [z3.And([mx >= I for I in Iv]), z3.Or([z3.And(mx == I, R(row[E["mx_I_f"]]) == j, R(row[E["mx_I_s"]]) == i, R(row[E["mx_I_o"]]) == om[t]) for I, (t, i, j) in zip(Iv, c)])]
                 g += [z3.And([R(row[E["bb_mx_o"]]) >= om[t] for t in ts]), z3.Or([R(row[E["bb_mx_o"]]) == om[t] for t in ts]),
                       z3.And([R(row[E["bb_mn_o"]]) <= om[t] for t in ts]), z3.Or([R(row[E["bb_mn_o"]]) == om[t] for t in ts])]
                 r_, _ = common.solve(base + [z3.Not(z3.And(g))], 20000); nq += 1
+                if r_ == "unknown":            # loaded machine / hard conjunction: decide the goals one by one with a longer limit; anything still unknown is inconclusive, never a mismatch
+                    rs = []
+                    for gi in g:
+                        ri, _ = common.solve(base + [z3.Not(gi)], 120000); nq += 1; rs.append(ri)
+                        if ri != "unsat": break
+                    r_ = "unsat" if all(x == "unsat" for x in rs) else ("sat" if "sat" in rs else "unknown")
+                if r_ == "unknown": unk.append("solver unknown while matching component %s with written row %d" % (c, r))
                 if r_ == "unsat": found = r; break
-            if found is None: bad.append("no written peak equals component %s (npix, sums, centroids, max pixel, bounding box)" % (c,))
-            else: used.add(found)
+            if found is None and not unk: bad.append("no written peak equals component %s (npix, sums, centroids, max pixel, bounding box)" % (c,))
+            elif found is not None: used.add(found)
         if res["events"]: bad.append("memory events %s" % res["events"][:3])
         vals = [[float(m.eval(F[t][k], model_completion=True).as_fraction()) for k in range(ns * nf)] for t in range(nfr)]
-        return dict(status=status, bad=bad, nq=nq, mask="|".join("".join("1" if b else "0" for b in mk) for mk in mask), vals=vals, thr=float(m.eval(thr, model_completion=True).as_fraction()),
+        return dict(status=status, bad=bad, unk=unk, nq=nq, mask="|".join("".join("1" if b else "0" for b in mk) for mk in mask), vals=vals, thr=float(m.eval(thr, model_completion=True).as_fraction()),
                     om=[float(o) for o in om], ncomp=len(comps))
     return f
 
@@ -390,6 +401,8 @@ def main():
         for mk in masks: ck.path("%s:%s" % (name, mk), n=0)
         if len(masks) != 2 ** (nfr * ns * nf) or len(outs) != len(masks): ck.inconclusive.append("%s: %d paths, %d masks, expected %d" % (name, len(outs), len(masks), 2 ** (nfr * ns * nf)))
         badp = [o for o in outs if o["bad"]]
+        for o in outs:
+            for u in o.get("unk", [])[:2]: ck.inconclusive.append("%s %s: %s" % (name, o.get("mask"), u))
         if not badp: ck.ok("%s: written 3D peaks = voxel components with exact pixel count, sums, centroids, max pixel and bounding box on all %d patterns" % (name, len(outs)))
         for o in badp[:3]:
             if o.get("vals") is None: ck.inconclusive.append("%s: %s" % (name, o["bad"])); continue
